@@ -2,7 +2,7 @@
    IMPLEMENTATION's state: a state accepted by premises_b satisfies the hypotheses of the
    theorems of Proofs/TransformProofs.v. *)
 From Coq Require Import Lia.
-From AC.Model Require Import Base GroupedList CheckC13 Labels Transform CheckC04 CheckC05.
+From AC.Model Require Import Base GroupedList CheckC13 Labels Transform FormatRule CheckC04 CheckC05.
 From AC.Proofs Require Import BaseLemmas GroupedListSpec CheckC13Proofs TransformSpec.
 
 Lemma is_finite_VNum : forall l, forallb is_finite l = true -> exists zs, l = map VNum zs.
@@ -24,13 +24,13 @@ Proof.
   apply andb_true_iff in H. destruct H as [Hwf Hsent].
   split; [|split].
   - split.
-    + unfold t_state, fitted_state. cbn [st_order]. apply wf_b_spec. exact Hwf.
+    + unfold t_state, fitted_state_auto, fitted_state. cbn [st_order]. apply wf_b_spec. exact Hwf.
     + reflexivity.
-  - unfold nan_ok, t_state, fitted_state. cbn [st_nan].
+  - unfold nan_ok, t_state, fitted_state_auto, fitted_state. cbn [st_nan].
     destruct (t_nan c) as [z| | |s|]; try discriminate Hstr.
     exists s. split; [reflexivity|].
     intro Hs. subst s. cbn in Htruthy. discriminate Htruthy.
-  - unfold sentinel, t_state, fitted_state. cbn [st_kind]. intro Hk.
+  - unfold sentinel, t_state, fitted_state_auto, fitted_state. cbn [st_kind]. intro Hk.
     unfold sentinel_b in Hsent. rewrite Hk in Hsent.
     unfold quant_leaders. cbn [st_nan st_order keys t_gl].
     destruct (rev (filter (fun v => py_neq v (t_nan c)) (t_keys c))) as [|a fs] eqn:Hrev;
